@@ -41,12 +41,16 @@ ASSUMPTIONS = [
     'a row is a flat list of exact integers (trailing dims raveled); dtypes are tags with an item size; '
     'NumPy casts/arithmetic on the integer-valued data used are exact (values kept far below 2**24)',
     'cached builds (append(cache_build=True) ... finalize_append()) are atomic operations; '
-    'tuple indices (seq[:, 0:2]), ArraySequence-valued operands of setitem/operators, save/load and '
-    'direct shrink_data() calls are outside the modelled operation list',
+    'tuple indices (seq[:, 0:2]), ArraySequence-valued operands of setitem, save/load and direct '
+    'shrink_data() calls are outside the modelled operation list; operators with an ArraySequence '
+    'operand are generated only with element-by-element equal row counts (or refused by _check_shape); '
+    'comparison results (bool data) are only read, sliced and copied afterwards',
     'PARTIAL: the theorems cover every state satisfying the storage invariant Inv and every history over '
     '{new, one-shot append, ArraySequence(seq), copy, slice/list/mask/int getitem, int/slice setitem, '
     'in-place arithmetic}; the cached-build loops (extend, extend(generator), extend(seq), concatenate) '
-    'and `seq op k` are modelled and covered by correspondence + oracle but have no theorem yet',
+    '`seq op k`, operators whose right operand is an ArraySequence (+ - * <, in place and not, operands '
+    'may alias) and unary operators are modelled and covered by correspondence + oracle but have no '
+    'theorem yet',
     'Basic/PySlice is the specification of Python slicing (validated by the C06 check)',
 ]
 RULE = ('histories over live sequences: exhaustive to depth 2 (full alphabet, 7 start states) and 3 (core '
@@ -55,7 +59,9 @@ RULE = ('histories over live sequences: exhaustive to depth 2 (full alphabet, 7 
         'multi-row elements, spare capacity or none, existing views and views of views; random histories '
         'to depth 25 over the full alphabet (append, cached '
         'append, extend list/generator/sequence, ArraySequence(seq), copy, slice/list/mask/int getitem, '
-        'int/slice setitem, += -= *= and + - *, concatenate) with common shapes (),(2,),(3,),(2,2) and '
+        'int/slice setitem, += -= *= and + - * with a scalar, += -= *= and + - * < with another live '
+        'ArraySequence of matching element lengths (fresh, a copy, a view or the sequence itself; non-compact '
+        'views as left operands), -s / abs(s), concatenate) with common shapes (),(2,),(3,),(2,2) and '
         'dtypes f8,i8,i4,i2,f4; Tractogram slice/extend stream (oracle only). A history is non-trivial '
         'when it has a write or growth while at least two live sequences exist; distinct by its text.')
 
@@ -66,9 +72,9 @@ PENDING_FINDINGS = [
      'input': {'kind': 'hist', 'shape': [3], 'ops': [['new', 0], ['op', 0, 0, 1]]}},
 ]
 
-DT_NAMES = ['f8', 'i8', 'i4', 'i2', 'f4']
+DT_NAMES = ['f8', 'i8', 'i4', 'i2', 'f4', '?']      # tag 5 (bool) only arises as a comparison result
 DT_CODE = {np.dtype(n).str: i for i, n in enumerate(DT_NAMES)}
-assert [np.dtype(n).itemsize for n in DT_NAMES] == [8, 8, 4, 2, 4]      # Model/C15.lean `itemsize`
+assert [np.dtype(n).itemsize for n in DT_NAMES] == [8, 8, 4, 2, 4, 1]      # Model/C15.lean `itemsize`
 DEFAULT_BYTES = 4 * 1024 * 1024
 SHAPES = [(), (2,), (3,), (2, 2)]
 
@@ -86,6 +92,8 @@ def width(shape):
 #  ['exts', t, u] ['view', t, B] ['copy', t] ['sl', t, a, b, c] ['idx', t, [i..]] ['mask', t, [0/1..]]
 #  ['get', t, i] ['set', t, i, rows] ['sets', t, a, b, c, [rows..]] ['iop', t, code, k] ['op', t, code, k]
 #  ['cat', [t..]]
+#  ['iops', t, v, code] `s op= seqs[v]`   ['ops', t, v, code] `s op seqs[v]` (code 3 = `<`)   ['un', t, code] -s / abs(s)
+#  (the last three: correspondence + oracle only, no theorem)
 # rows = list of flat integer rows (one array); B = buffer bytes (0 = the default 4 Mb)
 
 def _o(v):
@@ -132,12 +140,17 @@ def fmt_op(op, w):
         return f'{k}:{op[1]}:{op[2]}:{op[3]}'
     if k == 'cat':
         return 'cat:' + ','.join(str(t) for t in op[1]) + f':{w}'
+    if k in ('iops', 'ops'):
+        return f'{k}:{op[1]}:{op[2]}:{op[3]}'
+    if k == 'un':
+        return f'un:{op[1]}:{op[2]}'
     raise ValueError(op)
 
 
 GROW = ('app', 'appc', 'ext', 'extg', 'exts')
-WRITE = ('set', 'sets', 'iop')
-CREATE = ('new', 'view', 'copy', 'sl', 'idx', 'mask', 'op', 'cat')
+WRITE = ('set', 'sets', 'iop', 'iops')
+CREATE = ('new', 'view', 'copy', 'sl', 'idx', 'mask', 'op', 'cat', 'ops', 'un')
+TWO_SEQ = ('exts', 'iops', 'ops')
 
 
 def mk_hist(shape, ops, stream='random'):
@@ -170,6 +183,8 @@ def to_arr(rows, dt, shape):
 def rows_of(arr, w):
     a = np.asarray(arr)
     flat = a.reshape(a.shape[0], w).tolist() if a.size else [[] for _ in range(a.shape[0])]
+    if a.dtype.kind == 'b':
+        return [[int(x) for x in r] for r in flat]
     if a.dtype.kind == 'f':
         return [[int(x) if float(x).is_integer() else x for x in r] for r in flat]
     return flat
@@ -238,6 +253,19 @@ def exec_op(seqs, op, shape, w):
         seqs.append(s + op[3] if op[2] == 0 else s * op[3] if op[2] == 1 else s - op[3])
     elif k == 'cat':
         seqs.append(concatenate([seqs[t] for t in op[1]], axis=0))
+    elif k == 'iops':
+        s, v = seqs[op[1]], seqs[op[2]]
+        if op[3] == 0:
+            s += v
+        elif op[3] == 1:
+            s *= v
+        else:
+            s -= v
+    elif k == 'ops':
+        s, v = seqs[op[1]], seqs[op[2]]
+        seqs.append(s + v if op[3] == 0 else s * v if op[3] == 1 else s - v if op[3] == 2 else s < v)
+    elif k == 'un':
+        seqs.append(-seqs[op[1]] if op[2] == 0 else abs(seqs[op[1]]))
     else:
         raise ValueError(op)
     return 'ok'
@@ -371,6 +399,8 @@ def ref_positions(n, op):
 
 
 ARITH = {0: lambda x, k: x + k, 1: lambda x, k: x * k, 2: lambda x, k: x - k}
+ARITH2 = dict(ARITH)
+ARITH2[3] = lambda x, y: int(x < y)
 
 
 def same(got, want):
@@ -397,7 +427,7 @@ def oracle_hist(d, steps):
         k = op[0]
         where = f'step {n} {op}'
         for t in ([op[1]] if k not in ('new', 'cat') else op[1] if k == 'cat' else []) + \
-                 ([op[2]] if k == 'exts' else []):
+                 ([op[2]] if k in TWO_SEQ else []):
             if not 0 <= t < len(W.live):
                 raise Invalid()
         before = [[[list(r) for r in v] for v in x.values()] for x in W.live]
@@ -475,6 +505,32 @@ def oracle_hist(d, steps):
             s = W.live[target]
             f = ARITH[op[2]]
             W.live.append(Ref(W.new_items([[[f(x, op[3]) for x in r] for r in v] for v in s.values()]),
+                              W.fresh_grp(), False, s.dt))
+        elif k in ('iops', 'ops'):
+            s, v = W.live[target], W.live[op[2]]
+            f = ARITH2[op[3]]
+            if len(s.items) != len(v.items) or sum(len(a) for a in s.values()) != sum(len(a) for a in v.values()):
+                expect_status = 'ERR:ValueError'        # _check_shape (zip of unequal lists in list terms)
+            elif any(len(a) != len(b) for a, b in zip(s.values(), v.values())):
+                raise Invalid()
+            elif k == 'ops':
+                W.live.append(Ref(W.new_items([[[f(x, y) for x, y in zip(ra, rb)] for ra, rb in zip(a, b)]
+                                               for a, b in zip(s.values(), v.values())]),
+                                  W.fresh_grp(), False, s.dt))
+            else:
+                rel = 'same' if v is s else W.relation(s.grp, v.grp)
+                if rel == 'maybe':
+                    raise Invalid()                     # cannot tell whether the operands alias
+                cells = {}
+                for (ident, val), (vid, vval) in zip(s.items, v.items):   # `for a, b in zip(S, V): a op= b`
+                    cur = cells.get(ident, val)
+                    rhs = cells[vid] if rel == 'same' and vid in cells else vval
+                    cells[ident] = [[f(x, y) for x, y in zip(ra, rb)] for ra, rb in zip(cur, rhs)]
+                written = cells
+        elif k == 'un':
+            s = W.live[target]
+            g = (lambda x: -x) if op[2] == 0 else abs
+            W.live.append(Ref(W.new_items([[[g(x) for x in r] for r in a] for a in s.values()]),
                               W.fresh_grp(), False, s.dt))
         elif k == 'cat':
             if not op[1]:
@@ -621,7 +677,7 @@ def signature(case, what):
         return 'arrayseq:other'
     n = int(m.group(1))
     op = d['ops'][n]
-    if op[0] in ('iop', 'op') and 'StopIteration' in what:
+    if op[0] in ('iop', 'op', 'iops', 'ops', 'un') and 'StopIteration' in what:
         return 'arrayseq:arith-on-empty-sequence:StopIteration'
     rule = ('partial-write' if 'reached only' in what else
             'write-not-reaching-linked' if 'did not reach' in what else
@@ -648,7 +704,7 @@ def shrink_candidates(case):
             sid = sum(1 for o in ops[:i] if o[0] in CREATE)
             rest = ops[i + 1:]
             used = any(sid in ([o[1]] if o[0] not in ('new', 'cat') else o[1] if o[0] == 'cat' else []) or
-                       (o[0] == 'exts' and o[2] == sid) for o in rest)
+                       (o[0] in TWO_SEQ and o[2] == sid) for o in rest)
             if used:
                 continue
 
@@ -658,7 +714,7 @@ def shrink_candidates(case):
                     o[1] = [t - 1 if t > sid else t for t in o[1]]
                 elif o[0] != 'new':
                     o[1] = o[1] - 1 if o[1] > sid else o[1]
-                    if o[0] == 'exts':
+                    if o[0] in TWO_SEQ:
                         o[2] = o[2] - 1 if o[2] > sid else o[2]
                 return o
             yield mk_hist(shape, ops[:i] + [ren(o) for o in rest], 'shrunk')
@@ -683,8 +739,28 @@ class Sim:
 
     def __init__(self):
         self.lens = []      # per live sequence: list of element row counts
+        self.bools = set()  # live sequences holding NumPy bool (comparison results and what derives from them)
+
+    def clone(self):
+        c = Sim()
+        c.lens = [list(x) for x in self.lens]
+        c.bools = set(self.bools)
+        return c
+
+    def partners(self, t):
+        """live non-bool sequences whose elements have the same row counts as those of t"""
+        return [u for u in range(len(self.lens)) if self.lens[u] == self.lens[t] and u not in self.bools]
 
     def apply(self, op):
+        k = op[0]
+        L = self.lens
+        n0 = len(L)
+        self._apply(op)
+        if len(L) > n0 and ((k == 'ops' and op[3] == 3) or
+                            (k in ('view', 'copy', 'sl', 'idx', 'mask') and op[1] in self.bools)):
+            self.bools.add(n0)
+
+    def _apply(self, op):
         k = op[0]
         L = self.lens
         if k == 'new':
@@ -696,10 +772,13 @@ class Sim:
             L[op[1]].extend(len(e) for e in op[3] if e)
         elif k == 'exts':
             L[op[1]].extend(list(L[op[2]]))
-        elif k in ('view', 'copy', 'op'):
-            if k == 'op' and not L[op[1]]:
+        elif k in ('view', 'copy', 'op', 'un'):
+            if k in ('op', 'un') and not L[op[1]]:
                 return
             L.append(list(L[op[1]]))
+        elif k == 'ops':
+            if L[op[1]] and L[op[1]] == L[op[2]]:
+                L.append(list(L[op[1]]))
         elif k in ('sl', 'idx', 'mask'):
             pos = ref_positions(len(L[op[1]]), op)
             if not isinstance(pos, str):
@@ -744,8 +823,14 @@ def alphabet(sim, fr, dt, level):
     if 0 not in targets and n:
         targets = [0] + targets[1:]
     ops = []
+    B = sim.bools
     for t in targets:
         m = len(L[t])
+        if t in B:                      # a comparison result (bool data): only looked at, sliced, copied
+            if n < 5:
+                ops.append(lambda t=t: ['sl', t, 1, None, None])
+                ops.append(lambda t=t: ['copy', t])
+            continue
         ops.append(lambda t=t: ['app', t, dt, fr.rows(2)])
         ops.append(lambda t=t: ['ext', t, dt, [fr.rows(1), [], fr.rows(2)]])
         if n < 5:
@@ -771,38 +856,45 @@ def alphabet(sim, fr, dt, level):
                 ops.append(lambda t=t, m=m: ['sets', t, None, None, 2,
                                              [fr.rows(x) for x in L[t][::2]]])
                 ops.append(lambda t=t: ['iop', t, 1, 2])
+                # operators with an ArraySequence operand of matching element lengths (another live
+                # sequence when there is one, else the sequence itself) and a unary operator
+                others = [u for u in sim.partners(t) if u != t]
+                u = others[-1] if others else t
+                ops.append(lambda t=t, u=u: ['iops', t, u, 0])
+                if n < 5:
+                    ops.append(lambda t=t, u=u: ['ops', t, u, 2])
+                    ops.append(lambda t=t, u=u: ['ops', t, u, 3])
+                    ops.append(lambda t=t: ['un', t, 0])
             if n >= 2:
                 u = targets[0] if t != targets[0] else targets[-1]
-                ops.append(lambda t=t, u=u: ['exts', t, u])
-                if n < 5:
-                    ops.append(lambda t=t, u=u: ['cat', [t, u]])
+                if u not in B:
+                    ops.append(lambda t=t, u=u: ['exts', t, u])
+                    if n < 5:
+                        ops.append(lambda t=t, u=u: ['cat', [t, u]])
     return ops
 
 
 def enumerate_histories(shape, dt, depth, level, starts, out, stream, limit=None):
     w = width(shape)
     for name in starts:
-        def rec(prefix, sim_lens, v, d):
+        def rec(prefix, sim, v, d):
             if d == 0:
                 out.append(mk_hist(shape, prefix, stream))
                 return
-            sim = Sim()
-            sim.lens = [list(x) for x in sim_lens]
             fr = Fresh(w, v)
             makers = alphabet(sim, fr, dt, level)
             for mk in makers:
                 fr.v = v
                 op = mk()
-                s2 = Sim()
-                s2.lens = [list(x) for x in sim_lens]
+                s2 = sim.clone()
                 s2.apply(op)
-                rec(prefix + [op], s2.lens, fr.v, d - 1)
+                rec(prefix + [op], s2, fr.v, d - 1)
         fr0 = Fresh(w)
         prefix = dict(start_states(fr0, dt))[name]()
         sim = Sim()
         for op in prefix:
             sim.apply(op)
-        rec(prefix, sim.lens, fr0.v, depth)
+        rec(prefix, sim, fr0.v, depth)
 
 
 def random_history(rng, nsteps):
@@ -835,6 +927,7 @@ def random_history(rng, nsteps):
     add(['new', buf()])
     if rng.random() < 0.7:
         add([rng.choice(['ext', 'ext', 'extg']), 0, dt0, [elem() for _ in range(rng.randrange(0, 5))]])
+    seqadds = 0
     while len(ops) < nsteps:
         L = sim.lens
         n = len(L)
@@ -842,6 +935,48 @@ def random_history(rng, nsteps):
         m = len(L[t])
         can_create = n < 7
         r = rng.random()
+        if t in sim.bools:
+            # bool data (comparison result): only looked at / sliced / copied, never written or grown
+            if not can_create:
+                add(['get', t, rng.randrange(-m - 1, m + 1)])
+            elif r < 0.5:
+                add(['sl', t] + rslice(m))
+            elif r < 0.7:
+                add(['copy', t])
+            elif r < 0.85:
+                add(['mask', t, [rng.randrange(2) for _ in range(m)]])
+            else:
+                add(['view', t, buf()])
+            continue
+        if rng.random() < 0.12 and m and not mixed:
+            # operators with an ArraySequence operand / unary operators
+            kind = rng.choice(['iops', 'iops', 'ops', 'ops', 'ops', 'un', 'bad'])
+            if kind == 'un':
+                if can_create:
+                    add(['un', t, rng.randrange(2)])
+                continue
+            if kind == 'bad':                       # _check_shape refuses: ValueError, nothing changes
+                cand = [u for u in range(n) if u not in sim.bools and
+                        (len(L[u]) != m or sum(L[u]) != sum(L[t]))]
+                if cand:
+                    add([rng.choice(['iops', 'ops']), t, rng.choice(cand), rng.choice([0, 2])])
+                continue
+            if kind == 'ops' and not can_create:
+                continue
+            if seqadds >= (3 if dt0 == 3 else 8):
+                continue
+            if rng.random() < 0.35 and n < 6 and sum(L[t]) < 40:     # a fresh right operand
+                add(['new', buf()])
+                add(['ext', n, dt0, [fr.rows(x) for x in L[t]]])
+                u = n
+            else:
+                u = rng.choice(sim.partners(t))
+            codes = [0, 2] if kind == 'iops' else [0, 2, 3, 3]
+            if muls == 0 and dt0 in (0, 1) and rng.random() < 0.15:
+                codes, muls = [1], 99
+            seqadds += 1
+            add([kind, t, u, rng.choice(codes)])
+            continue
         if r < 0.13:
             add(['app', t, dt(), elem()])
         elif r < 0.18:
@@ -849,8 +984,9 @@ def random_history(rng, nsteps):
         elif r < 0.27:
             add([rng.choice(['ext', 'extg']), t, dt(), [elem() for _ in range(rng.randrange(0, 4))]])
         elif r < 0.31:
-            if sum(len(x) for x in L) < 400:
-                add(['exts', t, rng.randrange(n)])
+            u = rng.randrange(n)
+            if sum(len(x) for x in L) < 400 and u not in sim.bools:
+                add(['exts', t, u])
         elif r < 0.45 and can_create:
             add(['sl', t] + rslice(m))
         elif r < 0.50 and can_create:
@@ -903,7 +1039,9 @@ def random_history(rng, nsteps):
                     muls += 1
             add(['op', t, code, rng.choice([2, 3, -1]) if code == 1 else rng.choice([1, 5, -4])])
         elif can_create and sum(len(x) for x in L) < 400:
-            add(['cat', [rng.randrange(n) for _ in range(rng.randrange(1, 4))]])
+            ts = [rng.randrange(n) for _ in range(rng.randrange(1, 4))]
+            if not any(u in sim.bools for u in ts):
+                add(['cat', ts])
         elif can_create and rng.random() < 0.3:
             add(['new', buf()])
     return mk_hist(shape, ops, 'random')
